@@ -225,11 +225,14 @@ PArray(T, i, acc) ==
          ELSE Fail(r.i, "syntax")
 
 (* 11.1.5 object initialiser *)
-IsPropName(tk) == tk.t \in {"id", "k", "num", "str"}
+(* otto: parseObjectPropertyKey takes ANY token as a property name (name "" unless it looks like an identifier) *)
+AnyKey(tk) == D("DP21_object_key_any_token") /\ tk.t \in {"p", "num"} /\ ~IsP(tk, "}")
+IsPropName(tk) == tk.t \in {"id", "k", "num", "str"} \/ AnyKey(tk)
 PropKey(tk) ==      \* [ok, key, why]: the property name (a String)
     CASE tk.t \in {"id", "k"} -> [ok |-> TRUE, key |-> IdText(tk), why |-> ""]
       [] tk.t = "str" -> LET sv == StrLitSV(tk.src) IN [ok |-> sv.ok, key |-> sv.s, why |-> sv.why]
-      [] tk.t = "num" -> IF ~NumLitOK(tk.src) THEN [ok |-> FALSE, key |-> <<>>, why |-> "syntax"]
+      [] tk.t = "p" -> [ok |-> TRUE, key |-> <<>>, why |-> ""]
+      [] tk.t = "num" -> IF ~NumLitOK(tk.src) THEN [ok |-> AnyKey(tk), key |-> <<>>, why |-> "syntax"]
                          ELSE IF D("DP05_numeric_property_key_source_text") THEN [ok |-> TRUE, key |-> tk.src, why |-> ""]
                          ELSE [ok |-> TRUE, key |-> NumToStr(NumLitMV(tk.src)), why |-> ""]     \* ToString(MV)
 PProp(T, i) ==
@@ -402,6 +405,13 @@ PSemi(T, i) ==
     IF IsP(tk, ";") THEN Ok(BadNode, i + 1)
     ELSE IF IsP(tk, "}") \/ IsEOF(tk) \/ tk.nl THEN Ok(BadNode, i)
     ELSE Fail(i, "syntax")
+(* otto's semicolon() (var, return, throw, debugger, break/continue with a label) *)
+PSemiS(T, i) ==
+    IF ~D("DP09_semicolon_after_newline_not_consumed") THEN PSemi(T, i)
+    ELSE LET tk == Tk(T, i) IN
+         IF IsP(tk, ")") \/ IsP(tk, "}") \/ IsEOF(tk) \/ tk.nl THEN Ok(BadNode, i)     \* a ";" after a line terminator is left over
+         ELSE IF IsP(tk, ";") THEN Ok(BadNode, i + 1)
+         ELSE Fail(i, "syntax")
 Then(r, n) == IF r.ok THEN Ok(n, r.i) ELSE r
 
 Opt(r) == <<r.n>>
@@ -513,7 +523,7 @@ PStmt(T, i, top) ==
                                      "switch", "throw", "try", "debugger", "function"} THEN
         (CASE tk.v = "var" ->
                  (LET ds == PVarDecls(T, i + 1, FALSE, <<>>)
-                  IN  IF ~ds.ok THEN ds ELSE Then(PSemi(T, ds.i), [k |-> "var", decls |-> ds.n]))
+                  IN  IF ~ds.ok THEN ds ELSE Then(PSemiS(T, ds.i), [k |-> "var", decls |-> ds.n]))
            [] tk.v = "if" ->
                  (LET c == ParenExpr(T, i + 1) IN
                   IF ~c.ok THEN c
@@ -543,13 +553,13 @@ PStmt(T, i, top) ==
                  \* restricted production: no LineTerminator between the keyword and the label
                  (LET nx == Tk(T, i + 1)
                       lab == nx.t = "id" /\ ~nx.nl
-                  IN  Then(PSemi(T, IF lab THEN i + 2 ELSE i + 1), [k |-> tk.v, l |-> IF lab THEN nx.v ELSE ""]))
+                  IN  Then(IF lab THEN PSemiS(T, i + 2) ELSE PSemi(T, i + 1), [k |-> tk.v, l |-> IF lab THEN nx.v ELSE ""]))
            [] tk.v = "return" ->
                  (LET nx == Tk(T, i + 1)
                   IN  IF IsP(nx, ";") \/ IsP(nx, "}") \/ IsEOF(nx) \/ nx.nl
-                      THEN Then(PSemi(T, i + 1), [k |-> "return", e |-> <<>>])
+                      THEN Then(PSemiS(T, i + 1), [k |-> "return", e |-> <<>>])
                       ELSE LET e == PExpr(T, i + 1, FALSE)
-                           IN  IF ~e.ok THEN e ELSE Then(PSemi(T, e.i), [k |-> "return", e |-> <<e.n>>]))
+                           IN  IF ~e.ok THEN e ELSE Then(PSemiS(T, e.i), [k |-> "return", e |-> <<e.n>>]))
            [] tk.v = "with" ->
                  (LET c == ParenExpr(T, i + 1) IN
                   IF ~c.ok THEN c
@@ -563,9 +573,9 @@ PStmt(T, i, top) ==
            [] tk.v = "throw" ->
                  (IF Tk(T, i + 1).nl THEN Fail(i + 1, "syntax")        \* restricted production
                   ELSE LET e == PExpr(T, i + 1, FALSE)
-                       IN  IF ~e.ok THEN e ELSE Then(PSemi(T, e.i), [k |-> "throw", e |-> e.n]))
+                       IN  IF ~e.ok THEN e ELSE Then(PSemiS(T, e.i), [k |-> "throw", e |-> e.n]))
            [] tk.v = "try" -> PTry(T, i)
-           [] tk.v = "debugger" -> Then(PSemi(T, i + 1), [k |-> "debugger"])
+           [] tk.v = "debugger" -> Then(PSemiS(T, i + 1), [k |-> "debugger"])
            [] tk.v = "function" ->
                  \* 12 NOTE: a FunctionDeclaration as a Statement is a widespread extension, not ES5
                  IF top THEN PFunction(T, i, TRUE)
@@ -807,4 +817,49 @@ TS(s, xp) ==
             \o (IF s.hasF THEN <<TK("finally"), TP("{")>> \o TStmts(s.fin, xp) \o <<TP("}")>> ELSE <<>>)
       [] s.k = "fdecl" -> TFn(s, xp)
 ToksProgram(prog, xp) == TStmts(prog, xp)
+
+-----------------------------------------------------------------------------
+(* 7.2 white space, 7.3 line terminators, 7.4 comments: separators between   *)
+(* tokens, named by a TLC string; Src renders tokens + separators to source  *)
+(* text (code units), WithNL derives the "LineTerminator precedes" flags.    *)
+SepText ==
+    ("" :> <<>>) @@ ("sp" :> <<32>>) @@ ("tab" :> <<9>>) @@ ("vt" :> <<11>>) @@ ("ff" :> <<12>>)
+    @@ ("nbsp" :> <<160>>) @@ ("bom" :> <<65279>>) @@ ("zs" :> <<8195>>) @@ ("zs2" :> <<12288>>) @@ ("zs3" :> <<5760>>)
+    @@ ("sp2" :> <<32, 9, 32>>)
+    @@ ("cm" :> <<47, 42, 99, 42, 47>>)                        \* /*c*/
+    @@ ("scm" :> <<32, 47, 42, 99, 42, 47>>)                   \*  /*c*/
+    @@ ("cm2" :> <<32, 47, 42, 47, 47, 42, 32, 42, 47, 32>>)   \*  /*//* */
+    @@ ("lf" :> <<10>>) @@ ("cr" :> <<13>>) @@ ("crlf" :> <<13, 10>>) @@ ("ls" :> <<8232>>) @@ ("ps" :> <<8233>>)
+    @@ ("cl" :> <<32, 47, 47, 99, 10>>)                        \*  //c LF
+    @@ ("cl2" :> <<32, 47, 47, 42, 47, 13>>)                   \*  //*/ CR
+    @@ ("cn" :> <<32, 47, 42, 10, 42, 47>>)                    \*  /* LF */   (7.4: counts as a LineTerminator)
+    @@ ("cn2" :> <<32, 47, 42, 97, 8233, 42, 47, 32>>)         \*  /*a PS */
+    @@ ("cle" :> <<32, 47, 47, 99>>)                           \*  //c   (only as the trailing separator)
+NonNLSeps == <<"sp", "", "tab", "cm", "vt", "nbsp", "ff", "zs", "bom", "cm2", "sp2", "zs2", "zs3">>
+NLSeps == <<"lf", "cr", "crlf", "ls", "ps", "cl", "cn", "cl2", "cn2">>
+SepIsNL(s) ==
+    \/ s \in {"lf", "cr", "crlf", "ls", "ps", "cl", "cl2"}
+    \/ (s \in {"cn", "cn2"} /\ ~D("DP03_multiline_comment_no_line_terminator"))
+
+SafePunct == {"(", ")", "[", "]", "{", "}", ";", ",", "?", ":", "~"}
+WordLike(tk) == tk.t \in {"id", "k", "num"}
+(* sufficient condition for two adjacent tokens not to fuse (7: longest match) *)
+NoSepOK(a, b) ==
+    \/ a.t = "str" \/ b.t = "str"
+    \/ IsPIn(a, SafePunct) \/ IsPIn(b, SafePunct)
+    \/ /\ a.t # "re" /\ b.t # "re"
+       /\ WordLike(a) # WordLike(b)
+       /\ ~(a.t = "num" /\ IsP(b, "."))
+       /\ ~(IsP(a, ".") /\ b.t = "num")
+FixSep(T, i, s) ==
+    IF i = 1 \/ i > Len(T) THEN s
+    ELSE IF s = "" /\ ~NoSepOK(T[i - 1], T[i]) THEN "sp"
+    ELSE IF s = "cm" /\ IsP(T[i - 1], "/") THEN "scm"
+    ELSE s
+FixSeps(T, seps) == [i \in 1..(Len(T) + 1) |-> FixSep(T, i, seps[i])]
+WithNL(T, seps) == [i \in 1..Len(T) |-> [T[i] EXCEPT !.nl = (i > 1 /\ SepIsNL(seps[i]))]]
+Src(T, seps) ==
+    LET RECURSIVE J(_)
+        J(i) == IF i > Len(T) THEN SepText[seps[i]] ELSE SepText[seps[i]] \o TokText(T[i]) \o J(i + 1)
+    IN  J(1)
 =============================================================================
